@@ -397,13 +397,16 @@ CHECKS["C04"] = dict(
           "on exactly one node (unique payloads make a lost or duplicated execution visible). part overtake: directed scenario of the "
           "known finding (see known_findings.json). part burstorder: a slot has just moved (MOVED) or started migrating (ASK, keys absent) and no refresh can fall into the burst "
           "(refreshes spaced 5 s apart, table loaded moments ago; a case in which the refresh counter moved all the same is discarded): 1..3 connections each write 2..200 APPENDs on one key of "
-          "that slot in one go; the whole burst is redirected command by command, in two thirds of the cases to a node the proxy has no connection to yet; reply i must be :i. Non-trivial: a node issued MOVED/ASK for a client command while a slot was "
+          "that slot in one go; the whole burst is redirected command by command, in two thirds of the cases to a node the proxy has no connection to yet; reply i must be :i. part failover: "
+          "2..4 masters with 1..2 replicas, the periodic refresh at its production rate (never during a case): a master dies (optionally with 1..40 requests in flight, with or without warm connections, any read strategy) "
+          "and its replica is promoted; requests for the promoted node's slots, retried every 5 ms, must succeed within 10 s and stay served. Non-trivial: a node issued MOVED/ASK for a client command while a slot was "
           "half-migrated, or a fail-over happened. Distinct by canonical JSON of the history."),
     assumptions=["the periodic refresh runs every 50 ms in the harness (2 min in production); recovery after a fail-over is bounded by it",
                  "each pipelined burst touches a key at most once: same-key pipelines across a table refresh are the recorded known finding and are excluded by construction (decided separately by the overtake part)",
                  "fail-overs happen between client operations (replication in the simulator is synchronous)"],
     parts=[
         dict(name="migration", test="TestMigration", kind="rapid", checks={"quick": 120, "thorough": 6000}, shards=16, timeout={"quick": 900, "thorough": 3400}, shrinktime="90s", gomaxprocs=4, crash_is_violation=True),
+        dict(name="failover", test="TestFailoverRecovery", kind="rapid", checks={"quick": 60, "thorough": 400}, shards=16, timeout={"quick": 900, "thorough": 3400}, shrinktime="30s", crash_is_violation=True),
         dict(name="burstorder", test="TestBurstOrder", kind="rapid", checks={"quick": 60, "thorough": 500}, shards=16, timeout={"quick": 900, "thorough": 3400}, shrinktime="20s", crash_is_violation=False),
         dict(name="overtake", test="TestKnownOvertake", kind="plain", timeout=600),
     ],
